@@ -115,7 +115,7 @@ def gen_layout(r, idx):
     elif k < 0.15:
         pkg["namespace"] = True
     faulty = r.random() < 0.5
-    nm = r.choice([0, 1, 1, 2, 2, 2, 3, 3, 4])
+    nm = r.choice([0, 1, 1, 2, 2, 2, 2, 3, 3, 3, 4])
     stems = r.sample(STEMS, nm)
     pool = r.sample(MNAMES, r.choice([2, 3, 5, 8])) if faulty else list(MNAMES)
     if r.random() < 0.85 and "None" in pool:
@@ -126,7 +126,7 @@ def gen_layout(r, idx):
         m = {"stem": s, "fail": None, "classes": [], "junk": r.random() < 0.5}
         if faulty and r.random() < 0.13:
             m["fail"] = r.choice(FAILS)
-        for cn in sorted(r.sample(CNAMES, r.choice([0, 1, 1, 2, 2, 3, 4]))):
+        for cn in sorted(r.sample(CNAMES, r.choice([0, 1, 2, 2, 3, 3, 4]))):
             m["classes"].append(gen_cls(r, cn, pool, faulty))
         pkg["modules"].append(m)
     if not pkg["namespace"] and r.random() < 0.3:
@@ -583,6 +583,7 @@ class Driver:
             obs["default"] = t.getEntry("default").getString("<unset>")
             st = {"dash_set": False, "pub": None, "ended": False}
             for o in case["ops"]:
+                o = [x for x in o if not isinstance(x, dict)]
                 kind = o[0]
                 if kind in ("start", "periodic", "run"):
                     dt = o[3] if kind != "periodic" else o[1]
@@ -821,7 +822,7 @@ def oracle(case, obs, base):
         extra = [x for x in got if x not in want or got.count(x) > 1]
         v.append(("instantiation-set", "constructor calls differ from the classes with MODE_NAME and not DISABLED: "
                   "missing %s, unexpected/repeated %s" % (missing[:3], extra[:3])))
-    clash = "None" in names
+    clash = "None" in names or "" in names or key_clash(case, base)   # outside the property's reach, see notes
     modes = {k: i for k, i in obs["modes"]}
     if not dup and not clash:
         wantm = {c["mode"]: ident(s, c) for s, c in healthy}
@@ -974,6 +975,30 @@ def load_corpus():
     return out
 
 
+def resolve_dir(case, base):
+    """corpus cases may mention their own package directory as {dir} (artificial duplicate keys)."""
+    d = pkg_dir(case["pkg"], base)
+    for m in case["pkg"].get("modules", []):
+        for c in m["classes"]:
+            if isinstance(c.get("mode_tpl", None), str):
+                c["mode"] = c["mode_tpl"].replace("{dir}", d)
+    for o in case["ops"]:
+        if o[0] in ("start", "run"):
+            tpl = o[-1] if isinstance(o[-1], dict) else None
+            if tpl:
+                if tpl.get("dash") is not None:
+                    o[1] = tpl["dash"].replace("{dir}", d)
+                if tpl.get("choice") is not None:
+                    o[2] = tpl["choice"].replace("{dir}", d)
+
+
+def key_clash(case, base):
+    need = needed_classes(case)
+    d = pkg_dir(case["pkg"], base)
+    ren = set(c["cname"] + "_" + os.path.join(d, s + ".py") for s, c in need)
+    return any(c["mode"] in ren for _, c in need)
+
+
 def renumber(cases):
     for k, c in enumerate(cases):
         c["idx"] = k
@@ -1047,6 +1072,7 @@ def run(ctx):
         c["idx"] = k
         if c["pkg"]["name"] != "c14p%05d" % k:
             c["pkg"]["name"] = "c14p%05d" % k
+        resolve_dir(c, base)
     obs = run_impl(cases, ctx.work, "main", jobs)
     herr = [(i, o["harness_error"]) for i, o in enumerate(obs) if o.get("harness_error")]
     ctx.obligation("corr:implementation driven on every generated layout", not herr, repr(herr[:3]))
@@ -1121,6 +1147,7 @@ def search_violation(ctx, base, bad, cases, obs):
         for c in cs:
             counter[0] += 1
             c["pkg"]["name"] = "c14p%05d" % counter[0]
+            resolve_dir(c, sbase)
         return run_impl(cs, ctx.work, "s%d" % counter[0], 8)
 
     found = None
@@ -1178,6 +1205,7 @@ def replay(ctx, obj):
     case = obj["case"]
     case["pkg"]["name"] = "c14p%05d" % 99999
     base = os.path.join(ctx.work, "pk")
+    resolve_dir(case, base)
     o = run_impl([case], ctx.work, "replay", 1)[0]
     if o.get("harness_error"):
         print("harness error: %s" % o["harness_error"])
